@@ -52,7 +52,7 @@ Labels   == {"absent", "present"}
 PageTok  == {"empty", "valid", "garbage"}
 \* ack ids: none, live, stale (acknowledged), foreign (other subscription),
 \* garbage (not an id), mixed (live + garbage)
-AckIds   == {"none", "live", "stale", "foreign", "garbage", "mixed"}
+AckIds   == {"none", "live", "stale", "foreign", "garbage", "mixed", "blank"}   \* blank: an empty string among valid ids
 \* payloads: JSON, non-JSON, empty
 Payload  == {"json", "nonjson", "empty"}
 \* nested messages: absent / empty / populated variants
@@ -123,7 +123,7 @@ Classes == [
   Acknowledge |-> [subscription |-> Name, ack_ids |-> AckIds],
   Pull |-> [subscription |-> Name, max_messages |-> IntB, return_immediately |-> Bool],
   StreamingPull |-> [subscription |-> Name, ack_ids |-> AckIds,
-                     modify_deadline |-> {"none", "matched", "mismatched", "garbage"},
+                     modify_deadline |-> {"none", "matched", "mismatched", "garbage", "blank", "mixed"},
                      stream_ack_deadline_seconds |-> IntB, client_id |-> {"empty", "set"},
                      max_outstanding_messages |-> IntB, max_outstanding_bytes |-> ByteLimit,
                      session |-> Session],
